@@ -440,13 +440,33 @@ def _val_reach(g, starts, val, be, stop=(), strict=True):
     return list(out.values())
 
 
-def _selection_atoms(names, ex, false_names=()):
+def _literal_tables(fnode):
+    """locals of a function that are bound exactly once, to a tuple / list / set of string constants (possibly empty)"""
+    seen = {}
+    for x in ast.walk(fnode):
+        if isinstance(x, ast.Name) and isinstance(x.ctx, (ast.Store, ast.Del)):
+            seen[x.id] = seen.get(x.id, 0) + 1
+    out = {}
+    for x in ast.walk(fnode):
+        if isinstance(x, ast.Assign) and len(x.targets) == 1 and isinstance(x.targets[0], ast.Name) and seen.get(x.targets[0].id) == 1 and \
+                isinstance(x.value, (ast.Tuple, ast.List, ast.Set)) and all(isinstance(y, ast.Constant) and isinstance(y.value, str) for y in x.value.elts):
+            out[x.targets[0].id] = x.value
+    return out
+
+
+def _selection_atoms(names, ex, false_names=(), tables=None):
     """atoms of the gathering decision in a host function: names = {'G': <name of the all/dump flag>, 'command': <name>}"""
+    tables = tables or {}
+
     def atom_of(e):
         if isinstance(e, ast.Name) and e.id == names.get('G'):
             return ('G', True)
         if isinstance(e, ast.Compare) and len(e.ops) == 1 and isinstance(e.ops[0], (ast.In, ast.NotIn)) and is_name(e.left, names.get('command')):
             c = e.comparators[0]
+            if isinstance(c, ast.Name) and c.id in tables and c.id not in false_names:
+                c = tables[c.id]
+                if not c.elts:
+                    return ('FALSE', isinstance(e.ops[0], ast.In))
             if isinstance(c, ast.Attribute) and c.attr == 'valid_testnames' and is_name(c.value, ex):
                 return ('N', isinstance(e.ops[0], ast.In))
             if isinstance(c, ast.Name) and c.id in false_names:
@@ -516,7 +536,7 @@ def _gathering_model(ctx, f, g):
     def gathered_in(host, hg, sites, names, false_names, val, strict_all):
         got = False
         for st in sites:
-            be = _PathBool(_selection_atoms(names, st[3], false_names))
+            be = _PathBool(_selection_atoms(names, st[3], false_names, _literal_tables(host.node)))
             v = val.__class__(val)
             v['FALSE'] = False
             if st[0] == 'append':
